@@ -299,6 +299,8 @@ def classify(monitor, host, target="", port_elided=True):
     merely 'points elsewhere'), so a different defect on the same kind of host stays unclassified."""
     if monitor in ("readback-unparseable", "reassign-raises", "host-header-unparseable", "authority-unparseable") and ref.host_is_ipv6(host):
         return "ipv6-literal-host-unbracketed"
+    if monitor == "connect-url" and ref.host_is_ipv6(host):
+        return "ipv6-literal-unbracketed-in-connect-url"
     if monitor == "reassign-raises" and ref.host_is_idn(host):
         return "idn-host-readback-url-not-reassignable"
     if monitor == "authority-unparseable" and not port_elided and ref.host_is_idn(host.rstrip(".").rsplit(".", 1)[-1]):
@@ -396,7 +398,7 @@ def check_url_assign(ctx, req, g, had_host, had_auth, wit, as_bytes=False):
         except ref.RefURLError:
             got = None
         if got is None:
-            ctx.violation("connect-url-not-hostport", {**wit, "want": exp}, classify("readback-unparseable", g["host"], g["target"]))
+            ctx.violation("connect-url-not-hostport", {**wit, "want": exp}, classify("connect-url", g["host"]))
             return False
     else:
         ctx.count("url.readback_equivalent")
